@@ -537,6 +537,7 @@ type gen struct {
 	ctrs     []ethcmn.Address  // contracts believed to exist (committed or created earlier in the block being built)
 	ctrType  map[ethcmn.Address]string
 	seen     map[string]bool // transaction bytes already used (a byte-identical resubmission returns the cached response)
+	spent    map[string]bool // eth users that already have a transaction in the block being built
 	olvmGaps bool
 }
 
@@ -620,7 +621,7 @@ func (g *gen) olvm(e *sim.EthUser) (txgen.Tx, string) {
 		tag = "call-" + g.ctrType[c]
 	}
 	// failure classes of the consensus pre-checks, and nonce shapes
-	switch g.u.N(30, "fail") {
+	switch g.u.N(32, "fail") {
 	case 0:
 		if a.Nonce > 0 {
 			a.Nonce -= uint64(g.u.Range(1, int(min64(a.Nonce, 2)), "low"))
@@ -664,7 +665,19 @@ func (g *gen) olvm(e *sim.EthUser) (txgen.Tx, string) {
 	case 10:
 		a.Fee.Price = big.NewInt(int64(g.u.Range(1000000001, 5000000000, "price")))
 		tag += "+price-high"
+	case 11:
+		// spend the whole balance: value = committed balance - gas limit x price (exact only for a plain
+		// transfer that is the sender's first spending in the block; otherwise it is over the balance)
+		if a.To != nil && len(a.Data) == 0 && !g.spent[e.Name] {
+			a.Fee.Gas = 21000
+			cost := new(big.Int).Mul(big.NewInt(a.Fee.Gas), a.Fee.Price)
+			if bal := g.w.Bal(e.OLAddr(), "OLT"); bal.Cmp(cost) > 0 {
+				a.Value = new(big.Int).Sub(bal, cost)
+				tag += "+drain-exact"
+			}
+		}
 	}
+	g.spent[e.Name] = true
 	tx := txgen.OLVM(e, a)
 	for g.seen[string(tx.Bytes)] {
 		a.Fee.Gas++
@@ -741,6 +754,7 @@ func (g *gen) refresh() {
 
 func (g *gen) block(maxTx int) Block {
 	g.refresh()
+	g.spent = map[string]bool{}
 	b := Block{Gap: int64([]int{1, 5, 5, 17, 3600}[g.u.N(5, "gap")])}
 	focus := g.w.G.U.Eth[g.u.N(len(g.w.G.U.Eth), "focus")]
 	n := g.u.Range(0, maxTx, "ntx")
@@ -873,7 +887,7 @@ func TestC17(t *testing.T) {
 		var g *gen
 		v, st := execute(h, tr, func(r *runner, i int) (Block, bool) {
 			if g == nil {
-				g = &gen{u: u, w: r.w, r: r, nonce: map[string]uint64{}, ctrType: map[ethcmn.Address]string{}, seen: map[string]bool{}, olvmGaps: true}
+				g = &gen{u: u, w: r.w, r: r, nonce: map[string]uint64{}, ctrType: map[ethcmn.Address]string{}, seen: map[string]bool{}, spent: map[string]bool{}, olvmGaps: true}
 			}
 			if i >= nb {
 				return Block{}, false
